@@ -537,10 +537,14 @@ class Return(Exception):
     pass
 
 
+_WIDE_METHODS = {
+    "splat": "id.", "cmp_eq": "cmp.==", "cmp_ne": "cmp.!=", "cmp_lt": "cmp.<", "cmp_le": "cmp.<=", "cmp_gt": "cmp.>", "cmp_ge": "cmp.>=",
+    "blend": "select", "mul_add": "mul_add", "mul_sub": "mul_sub", "min": "fn1.min", "max": "fn1.max",
+}
 _FLOAT_METHODS = {
     "sqrt": "sqrt", "cbrt": "cbrt", "abs": "abs", "floor": "floor", "ceil": "ceil", "round": "round",
     "sin": "sin", "cos": "cos", "tan": "tan", "asin": "asin", "acos": "acos", "atan": "atan",
-    "exp": "exp", "ln": "ln", "signum": "signum", "to_degrees": "to_degrees", "to_radians": "to_radians",
+    "exp": "exp", "ln": "ln", "signum": "signum", "to_degrees": "rad2deg", "to_radians": "deg2rad",
     "trunc": "trunc", "fract": "fract", "log2": "log2", "log10": "log10", "exp2": "exp2",
 }
 
@@ -1543,6 +1547,12 @@ class Evaluator:
                 m = re.match(r"^(?:core|std)::num::<impl (u8|u16|u32|u64|u128|usize|i8|i16|i32|i64|i128)>::(\w+)$", path)
                 if m:
                     key = "int." + m.group(2)
+        if key is None:
+            m = re.match(r"^wide::(?:\w+::)*(f32x4|f32x8|f64x2|f64x4)::(\w+)$", path) \
+                or re.match(r"^wide::<impl wide::(f32x4|f32x8|f64x2|f64x4)>::(\w+)$", path) \
+                or re.match(r"^<wide::(f32x4|f32x8|f64x2|f64x4) as wide::\w+>::(\w+)$", path)
+            if m:
+                key = _WIDE_METHODS.get(m.group(2), "float." + m.group(2))
         if key is None:
             return NotImplemented
         h = getattr(self, "op_" + key.replace(".", "_"), None)
